@@ -1396,6 +1396,153 @@ func (x *c19Run) ioDownFixed(st *c19Stream, size, lenp int) {
 	x.pipeRead(&st.down, lenp, st.cst, false)
 }
 
+// FULL-DUPLEX family: a conn obtained through Listen/Accept and the client's stream used as net.Conn, each
+// READ by one goroutine while ANOTHER goroutine WRITES it.  Both directions carry a self-describing byte stream
+// (byte = f(direction, offset)); read sizes are exact fits of the write / slice size (reads that end exactly at
+// the end of the buffered data) or odd.  Oracle: every Write returns (len p, nil); every Read returns 1..len p
+// bytes and no error; every byte is the one the peer wrote at that offset; nothing hangs.
+func c19DxByte(dir int, off int64) byte { return byte(off*131 + (off>>8)*7 + int64(dir)*89 + 3) }
+
+func c19Duplex(id int, seed uint64, dir string, wsize, rsize, msg, mread, nbig, nsmall int) c19Case {
+	t0 := time.Now()
+	c := c19Case{ID: id, Seed: seed, Backlog: 2}
+	x := &c19Run{c: &c, r: newVrand(seed), oracle: map[string]bool{}, feat: map[string]bool{}, seenSrv: map[*Session]bool{}, dir: dir}
+	path := filepath.Join(dir, fmt.Sprintf("c19_%d_%d.sock", os.Getpid(), id))
+	os.Remove(path)
+	ln, err := ListenWithBacklog(path, 2)
+	if err != nil {
+		c.Skipped = "listen failed: " + err.Error()
+		return c
+	}
+	defer os.Remove(path)
+	defer ln.Close()
+	x.ln, x.l = ln, ln.(*listener)
+	rawc, err := net.Dial("unix", path)
+	if err != nil {
+		c.Skipped = "dial: " + err.Error()
+		return c
+	}
+	conf := c19ClientConf(fmt.Sprintf("dx_%d_%d", os.Getpid(), id))
+	conf.ShareMemoryBufferCap = 16 << 20
+	conf.BufferSliceSizes = []*SizePercentPair{{4096, 70}, {16384, 30}}
+	client, err := newSession(conf, rawc, true)
+	if err != nil {
+		c.Skipped = "client session: " + err.Error()
+		return c
+	}
+	defer client.Close()
+	cst, err := client.OpenStream()
+	if err != nil {
+		c.Skipped = "open: " + err.Error()
+		return c
+	}
+	if _, err = cst.Write([]byte{0xD0}); err != nil {
+		c.Skipped = "hello: " + err.Error()
+		return c
+	}
+	acc := make(chan c19AccRes, 1)
+	go func() { cn, e := ln.Accept(); acc <- c19AccRes{cn, e} }()
+	var sconn net.Conn
+	select {
+	case r := <-acc:
+		if r.err != nil {
+			c.Skipped = "accept: " + r.err.Error()
+			return c
+		}
+		sconn = r.conn
+	case <-time.After(5 * time.Second):
+		c.Skipped = "accept did not return"
+		return c
+	}
+	defer sconn.Close()
+	hello := make([]byte, 1)
+	sconn.SetReadDeadline(time.Now().Add(5 * time.Second))
+	if n, e := sconn.Read(hello); e != nil || n != 1 {
+		c.Skipped = "hello read failed"
+		return c
+	}
+	sconn.SetReadDeadline(time.Time{})
+	x.say("duplex: c->s %d x %d B read in %d B pieces; s->c %d x %d B read in %d B pieces", nbig, wsize, rsize, nsmall, msg, mread)
+
+	var failed int32
+	var failMu sync.Mutex
+	fail := func(format string, a ...interface{}) {
+		failMu.Lock()
+		x.oracle[fmt.Sprintf(format, a...)] = true
+		failMu.Unlock()
+		atomic.StoreInt32(&failed, 1)
+	}
+	var up, upRead, down, downRead int64 // bytes written / verified per direction
+	writer := func(w net.Conn, dirn int, size, count int, sent, read *int64, window int64, who string) {
+		buf := make([]byte, size)
+		for k := 0; k < count && atomic.LoadInt32(&failed) == 0; k++ {
+			for atomic.LoadInt64(sent)-atomic.LoadInt64(read) > window && atomic.LoadInt32(&failed) == 0 {
+				time.Sleep(20 * time.Microsecond)
+			}
+			off := atomic.LoadInt64(sent)
+			for i := range buf {
+				buf[i] = c19DxByte(dirn, off+int64(i))
+			}
+			n, e := w.Write(buf)
+			if e != nil || n != size {
+				fail("duplex: %s Write of a %d-byte message returned an error or n != len(p) while the other goroutine was reading the same conn", who, size)
+				return
+			}
+			atomic.AddInt64(sent, int64(size))
+		}
+	}
+	reader := func(r net.Conn, dirn int, size int, total int64, read *int64, who string) {
+		buf := make([]byte, size)
+		var off int64
+		for off < total && atomic.LoadInt32(&failed) == 0 {
+			r.SetReadDeadline(time.Now().Add(10 * time.Second))
+			n, e := r.Read(buf)
+			if e != nil {
+				fail("duplex: %s Read failed with class %d before the stream was complete", who, c19ErrClass(e))
+				return
+			}
+			if n <= 0 || n > size {
+				fail("duplex: %s Read returned n outside 1..len(p) with a nil error (n = 0 or too large)", who)
+				return
+			}
+			for i := 0; i < n; i++ {
+				if buf[i] != c19DxByte(dirn, off+int64(i)) {
+					fail("duplex: %s Read returned a byte the peer did not write at that offset (foreign, lost or reordered bytes)", who)
+					return
+				}
+			}
+			off += int64(n)
+			atomic.StoreInt64(read, off)
+		}
+	}
+	var wg sync.WaitGroup
+	run := func(f func()) { wg.Add(1); go func() { defer wg.Done(); f() }() }
+	run(func() { writer(cst, 0, wsize, nbig, &up, &upRead, 256<<10, "client") })
+	run(func() { reader(sconn, 0, rsize, int64(wsize)*int64(nbig), &upRead, "server") })
+	run(func() { writer(sconn, 1, msg, nsmall, &down, &downRead, int64(64*msg), "server") })
+	run(func() { reader(cst, 1, mread, int64(msg)*int64(nsmall), &downRead, "client") })
+	done := make(chan struct{})
+	go func() { wg.Wait(); close(done) }()
+	select {
+	case <-done:
+	case <-time.After(40 * time.Second):
+		fail("duplex: the four goroutines did not finish within 40s (a Read or Write hangs)")
+		atomic.StoreInt32(&failed, 1)
+	}
+	x.feat["full-duplex"] = true
+	if rsize == 4096 || wsize%rsize == 0 {
+		x.feat["duplex-exact-fit-reads"] = true
+	}
+	for k := range x.oracle {
+		c.Oracle = append(c.Oracle, k)
+	}
+	for k := range x.feat {
+		c.Feat = append(c.Feat, k)
+	}
+	c.Ms = time.Since(t0).Milliseconds()
+	return c
+}
+
 func TestVerif_C19(t *testing.T) {
 	seed := uint64(venvInt("VERIF_SEED", 1))
 	n := venvInt("VERIF_N", 40)
@@ -1434,6 +1581,20 @@ func TestVerif_C19(t *testing.T) {
 		}()
 	}
 	wg.Wait()
+	// full duplex (CPU heavy: a few at a time)
+	{
+		type dxp struct{ wsize, rsize, msg, mread, nbig, nsmall int }
+		dxs := []dxp{{16384, 4096, 64, 64, 300, 4000}, {4096, 4096, 128, 64, 600, 3000}, {12288, 1000, 64, 37, 300, 3000}, {8192, 8192, 64, 64, 400, 4000}}
+		var wgd sync.WaitGroup
+		for i, d := range dxs {
+			wgd.Add(1)
+			go func(i int, d dxp) {
+				defer wgd.Done()
+				emit(c19Duplex(100000+i, seed*31+uint64(i), dir, d.wsize, d.rsize, d.msg, d.mread, d.nbig, d.nsmall))
+			}(i, d)
+		}
+		wgd.Wait()
+	}
 	// stress: streams racing with listener.Close
 	nstress := venvInt("VERIF_STRESS", 3*n/2)
 	var sid int64 = int64(n + 8)
